@@ -129,7 +129,10 @@ theorem invalid_is_error_not_panic (c : Config) (l : List (Option Rpu)) :
   | panic => exact absurd h this
 
 /-- … and the whole editor (with encoding and duplication) can panic only inside the RPU writer, on a frame that
-`execute` produced (the writer's panics are the subject of C03/C08) -/
+`execute` produced (the writer's panics are the subject of C03/C08). Allocation is not modelled: a `duplicate`
+entry whose `length` is astronomically large makes the real `Vec::splice` fail with "capacity overflow" or an
+allocation abort (the request is for that many copies; the model's `List.replicate` has no such limit) — named in
+DESIGN.md P2.9 as a limit of the model, outside this theorem -/
 theorem edit_panics_only_in_writer (c : Config) (rpus : List Rpu) (h : edit c rpus = .panic) :
     ∃ out r, execute c (rpus.map some) = .ok out ∧ some r ∈ out ∧ writeRpu r = .panic :=
   edit_panic c rpus h
